@@ -69,6 +69,7 @@ type Engine struct {
 	harnessPkg *ssa.Package
 	opaqueErrT types.Type
 	curParams []int
+	noIfConv  bool
 }
 
 func (e *Engine) fnName(fn *ssa.Function) string {
@@ -340,6 +341,9 @@ func (e *Engine) exec(st *State) {
 		fr.ip++
 	case *ssa.If:
 		c := e.get(st, fr, x.Cond).(*Term)
+		if _, isKnown := st.known(c); !isKnown && e.tryIfConvert(st, fr, c) {
+			return
+		}
 		if e.concBool(st, c) {
 			e.jump(st, fr, fr.block.Succs[0])
 		} else {
